@@ -223,7 +223,7 @@ def run(ctx, pid):
 
     def sim(cfg, name, num, depth, c0, wb, threads, seed):
         d = ctx.sub(name)
-        f = pool.submit(vlib.tlc, ctx, FILES, "Allocator", cfg, name=name, workers=1, timeout=900, workdir=d,
+        f = pool.submit(vlib.tlc, ctx, FILES, "Allocator", cfg, name=name, workers=1, timeout=ctx.pick(900, 2400), workdir=d,
                         simulate={"num": num, "depth": depth, "file": "beh"}, seed=ctx.seed * 31 + seed)
         sims.append((f, c0, wb, threads, name))
 
@@ -260,7 +260,12 @@ def run(ctx, pid):
     for f, c0, wb, threads, tag in sims:
         r = f.result()
         if not r.ok:
-            raise Inconclusive("simulation %s failed: %s" % (tag, r.error or r.violated))
+            if r.timed_out and vlib.list_behaviour_files(r.dir, "beh"):
+                # a loaded machine: the behaviours written so far are used (fewer executions, same judgement)
+                ctx.notes.append("simulation %s stopped at its time limit; %d behaviours used" %
+                                 (tag, len(vlib.list_behaviour_files(r.dir, "beh"))))
+            else:
+                raise Inconclusive("simulation %s failed: %s" % (tag, r.error or r.violated))
         for fn in vlib.list_behaviour_files(r.dir, "beh"):
             sc, spin = _scenario(fn, c0, wb, threads, rng, tag)
             if not sc["steps"]:
